@@ -91,6 +91,20 @@ var targets = []target{
 	{"par2/crc32.go", "crc32Window", "update", "gen_crc32Window_update", 0},
 }
 
+// byte-array variables initialised by a composite literal of character constants: file, variable, array length
+var byteArrays = []struct {
+	file, name string
+	n          int
+}{
+	{"par2/packet.go", "expectedMagic", 8},
+	{"par2/main_packet.go", "mainPacketType", 16},
+	{"par2/file_description_packet.go", "fileDescriptionPacketType", 16},
+	{"par2/ifsc_packet.go", "ifscPacketType", 16},
+	{"par2/recovery_packet.go", "recoveryPacketType", 16},
+	{"par2/creator_packet.go", "creatorPacketType", 16},
+	{"par1/header.go", "expectedID", 8},
+}
+
 // constant blocks emitted as Definitions (name -> value), file by file
 var constFiles = []string{"par2cmdline/exit_codes.go", "gf2p16/t.go"}
 
@@ -941,7 +955,7 @@ func main() {
 	}
 	var out strings.Builder
 	out.WriteString("(* GENERATED by tools/gotocoq from the Go sources - do not edit *)\n")
-	out.WriteString("From Coq Require Import NArith ZArith Bool List.\nFrom Gopar Require Import Model.GoSem.\nOpen Scope N_scope.\n\n")
+	out.WriteString("From Coq Require Import NArith ZArith Bool List.\nImport ListNotations.\nFrom Gopar Require Import Model.GoSem.\nOpen Scope N_scope.\n\n")
 	// constants
 	pkgConsts := map[string]map[string]int64{}
 	for _, cf := range constFiles {
@@ -951,6 +965,60 @@ func main() {
 		pkgConsts[filepath.Dir(cf)] = m
 		for _, n := range names {
 			fmt.Fprintf(&out, "Definition const_%s_%s : Z := (%d)%%Z.\n", strings.ReplaceAll(filepath.Dir(cf), "/", "_"), n, m[n])
+		}
+	}
+	for _, ba := range byteArrays {
+		f := parse(ba.file)
+		found := false
+		for _, d := range f.Decls {
+			g, ok := d.(*ast.GenDecl)
+			if !ok || g.Tok != token.VAR {
+				continue
+			}
+			for _, sp := range g.Specs {
+				vs := sp.(*ast.ValueSpec)
+				for i, n := range vs.Names {
+					if n.Name != ba.name || i >= len(vs.Values) {
+						continue
+					}
+					cl, ok := vs.Values[i].(*ast.CompositeLit)
+					if !ok {
+						panic(bad{ba.name + ": not a composite literal"})
+					}
+					var vals []string
+					for _, e := range cl.Elts {
+						bl, ok := e.(*ast.BasicLit)
+						if !ok || (bl.Kind != token.CHAR && bl.Kind != token.INT) {
+							panic(bad{ba.name + ": element that is not a character or integer constant"})
+						}
+						var v int64
+						if bl.Kind == token.CHAR {
+							r, _, _, err := strconv.UnquoteChar(bl.Value[1:len(bl.Value)-1], '\'')
+							if err != nil {
+								panic(bad{ba.name + ": " + err.Error()})
+							}
+							v = int64(r)
+						} else {
+							v, _ = strconv.ParseInt(bl.Value, 0, 64)
+						}
+						if v < 0 || v > 255 {
+							panic(bad{ba.name + ": element out of byte range"})
+						}
+						vals = append(vals, strconv.FormatInt(v, 10))
+					}
+					if len(vals) > ba.n {
+						panic(bad{ba.name + ": more elements than the array length"})
+					}
+					for len(vals) < ba.n {
+						vals = append(vals, "0") // Go zero-fills the rest of the array
+					}
+					fmt.Fprintf(&out, "Definition bytes_%s_%s : list N := [%s].\n", strings.ReplaceAll(filepath.Dir(ba.file), "/", "_"), ba.name, strings.Join(vals, "; "))
+					found = true
+				}
+			}
+		}
+		if !found {
+			panic(bad{"variable " + ba.name + " not found in " + ba.file})
 		}
 	}
 	out.WriteString("\n")
@@ -1011,6 +1079,29 @@ func main() {
 		sigs[key] = s
 	}
 	for _, t := range targets {
+		translateOne(t, decls, sigs, pkgConsts, parse, fset, &out)
+	}
+	if err := os.WriteFile(outp, []byte(out.String()), 0o644); err != nil {
+		panic(err)
+	}
+}
+
+// translateOne emits the definition of one target; a function outside the subset is reported in a comment and
+// skipped, so that only the link files that need it stop compiling
+func translateOne(t target, decls map[string]*ast.FuncDecl, sigs map[string]*sig, pkgConsts map[string]map[string]int64,
+	parse func(string) *ast.File, fset *token.FileSet, out *strings.Builder) {
+	defer func() {
+		if r := recover(); r != nil {
+			if b, ok := r.(bad); ok {
+				fmt.Fprintf(out, "(* NOT TRANSLATED: %s: %s *)\n\n", t.coq, strings.ReplaceAll(b.msg, "*)", "* )"))
+				fmt.Fprintln(os.Stderr, "gotocoq: "+t.coq+" skipped: "+b.msg)
+				delete(sigs, t.recv+"."+t.name)
+				return
+			}
+			panic(r)
+		}
+	}()
+	{
 		key := t.recv + "." + t.name
 		fd, s := decls[key], sigs[key]
 		consts := map[string]int64{}
@@ -1091,11 +1182,8 @@ func main() {
 		for _, v := range c.vars {
 			vts = append(vts, c.vtypes[v])
 		}
-		fmt.Fprintf(&out, "(* %s: func %s%s *)\nDefinition %s %s : ctl %s %s :=\n%s%s.\n\n", t.file, map[bool]string{true: "(" + t.recv + ") ", false: ""}[t.recv != ""], t.name,
+		fmt.Fprintf(out, "(* %s: func %s%s *)\nDefinition %s %s : ctl %s %s :=\n%s%s.\n\n", t.file, map[bool]string{true: "(" + t.recv + ") ", false: ""}[t.recv != ""], t.name,
 			t.coq, strings.Join(ps, " "), prodType(vts), prodType(s.results), pre, body)
-	}
-	if err := os.WriteFile(outp, []byte(out.String()), 0o644); err != nil {
-		panic(err)
 	}
 }
 
